@@ -100,31 +100,54 @@ def run_e2(res, tier):
     res.sample(lambda: {"case": cases[0], "observation": obs[0]})
 
 
+def feature_subsets(tier):
+    """Subsets of the framework's cargo features that decide which CosmosMsg variants exist (and which conversion arms are compiled)."""
+    import itertools
+    allf = list(e4.F_ALL)
+    if tier == "thorough":
+        return [tuple(c) for n in range(len(allf), -1, -1) for c in itertools.combinations(allf, n)]
+    return [tuple(allf), (), ("f_staking",), ("f_stargate", "f_cw20")]
+
+
 def run(tier):
     res = core.Result("C11", tier)
-    out = e4.run_suite_into(res, "intoresp", tier)
-    if out is not None:
-        res.add(states=out["responses"], transitions=out["responses"], traces=out["responses"], evaluations=out["responses"])
-        res.nontrivial = set(range(out["nontrivial"]))
-        for oc in out["outcomes"]:
+    out = None
+    nontrivial = 0
+    for feats in feature_subsets(tier):
+        o = e4.run_suite_into(res, "intoresp", tier, feats=feats)
+        if o is None:
+            continue
+        want = [f in feats for f in e4.F_ALL]
+        if o.get("features") != want:
+            raise core.MachineryError("intoresp suite built for features %s reports %s" % (feats, o.get("features")))
+        out = out or o
+        fl = "+".join(f[2:] for f in feats) or "none"
+        res.add(states=o["responses"], transitions=o["responses"], traces=o["responses"], evaluations=o["responses"])
+        nontrivial += o["nontrivial"]
+        for oc in o["outcomes"]:
             res.outcome(oc)
+        res.outcome(("features", fl))
         seen = set()
-        for v in out["violations"]:
+        for v in o["violations"]:
             key = (v["what"], tuple(v.get("msg_kinds", [])))
             if key in seen:
                 continue
             seen.add(key)
-            res.violation({"kind": "intoresp", "cls": v["what"], "msg_kinds": v.get("msg_kinds"), "response": v.get("response"), "error": v.get("error"),
-                           "what": "into_response: %s; message kinds %s; %s" % (v["what"], v.get("msg_kinds"), (v.get("error") or "")[:200])})
-        if out["bad"] and not out["violations"]:
+            res.violation({"kind": "intoresp", "cls": v["what"], "msg_kinds": v.get("msg_kinds"), "response": v.get("response"), "error": v.get("error"), "features": fl,
+                           "what": "into_response (framework features: %s): %s; message kinds %s; %s" % (fl, v["what"], v.get("msg_kinds"), (v.get("error") or "")[:200])})
+        if o["bad"] and not o["violations"]:
             raise core.MachineryError("intoresp suite counted bad cases but reported none")
-        res.parts.update({"responses": out["responses"], "message_lists": out["message_lists"], "submsg_alphabet": out["submsg_alphabet"], "msg_kinds": out["msg_kinds"],
-                          "conversion_errors": out["errors"]})
+        res.parts.setdefault("intoresp_by_features", {})[fl] = {"responses": o["responses"], "message_lists": o["message_lists"], "submsg_alphabet": o["submsg_alphabet"],
+                                                                 "msg_kinds": o["msg_kinds"], "conversion_errors": o["errors"]}
+    res.nontrivial = set(range(nontrivial))
+    if out is not None:
         res.sample(out["sample"])
     else:
         out = e4.stub()
     run_e2(res, tier)
-    res.cov["rule"] = ("E4: every Response<Empty> with <= 2 sub-messages over %d message kinds (every CosmosMsg variant incl. Ibc, Gov, Any, deprecated Stargate, "
+    res.cov["rule"] = ("E4: for the framework built with each explored subset of its features {staking, stargate, cosmwasm_2_0} (quick: all, none, staking only, "
+                       "stargate+cosmwasm_2_0; thorough: all 8): every Response<Empty> with <= 2 sub-messages over the message kinds that exist under that subset "
+                       "(with all: %d kinds, every CosmosMsg variant incl. Ibc, Gov, Any, deprecated Stargate, "
                        "Custom(Empty)) x id x payload x gas limit x reply_on, 0-2 attributes, 0-2 events, data absent/present, both orders of two sub-messages: "
                        "conversion is Err iff a Custom message is present, else JSON- and field-wise equal.  E2: custom-typed contracts mixing interfaces bridged for "
                        "msg, query, both, neither and chain-typed ones; every interface handler x flag (plain / custom message / stargate message) x 3 contexts "
